@@ -87,7 +87,7 @@ func VerifStrRepr(v Value) (kind string, asciiOnly bool) {
 				break
 			}
 		}
-		if !s.scanned {
+		if !s.isScanned() {
 			return "imported-unscanned", ao
 		}
 		if s.u != nil {
